@@ -1,4 +1,5 @@
 import UmProofs.BrokerResRun
+import UmProofs.BrokerOrderedReach
 /-!
 # C12 — Proxy resources are accounted consistently and chunks span two hosts
 
@@ -7,6 +8,14 @@ result `R.panic`; HashMap-order dependent picks of the allocator are *choice* ar
 against the set of picks the code can make). `Reachable s` = `s = run ops` for some operation
 list with arbitrary choices. All statements are for every reachable state / every operation /
 every choice, without bounds.
+
+Both modes of the broker are covered: a history that starts with `Op.setOrdered` is a history of a
+broker started with `enable_ordered_proxy = true` (`runOrdered`), and `Reachable` contains those.
+Accounting, `check_metadata`, no-panic and refusal theorems hold in both modes as stated. The
+two-hosts clause is a property of the normal allocator only (hypothesis `s.ordered = false`); in
+ordered mode chunks are filled in proxy-index order (`C12_ordered_addCluster`,
+`C12_ordered_addNodes`), there is at most one cluster (`C12_ordered_one_cluster`) and a failed proxy
+is never replaced (`C12_ordered_failover`).
 -/
 namespace Um.Broker
 open Um Um.Slots
@@ -68,7 +77,7 @@ theorem C12_no_panic (s : Store) (h : Reachable s) (op : Op) (hop : op.usesPlann
     (stepFull s op).2 ≠ .panic := by
   have hx := rx_reachable s h
   cases op with
-  | addProxy a n0 n1 ho => exact Outcome.ofR_ne_panic (addProxy_noPanic s a n0 n1 ho)
+  | addProxy a n0 n1 ho io => exact Outcome.ofR_ne_panic (addProxy_noPanic s a n0 n1 ho io)
   | removeProxy a => exact Outcome.ofR_ne_panic (removeProxy_noPanic s a)
   | addCluster n k c => exact Outcome.ofR_ne_panic (addCluster_noPanic s n k defaultConfig c)
   | removeCluster n => exact Outcome.ofR_ne_panic (removeCluster_noPanic s n)
@@ -86,11 +95,20 @@ theorem C12_no_panic (s : Store) (h : Reachable s) (op : Op) (hop : op.usesPlann
   | bumpAll e => exact Outcome.ofR_ne_panic (forceBumpAllEpoch_noPanic s e)
   | recover e => intro e'; cases e'
   | addFailure a r t => intro e'; cases e'
+  | setOrdered => intro e'; cases e'
 
 /-- the allocator itself never panics, on *any* store (reachable or not), for any even request -/
 theorem C12_no_panic_allocator (s : Store) (proxyNum : Nat) (choice : List (String × String))
     (heven : proxyNum % 2 = 0) (hpos : 0 < proxyNum) : ∀ w, generateFreeChunks s proxyNum choice ≠ R.panic w :=
   generateFreeChunks_no_panic s proxyNum choice hpos heven
+
+/-- … nor does the allocator of ordered mode (`generate_free_chunks_for_ordered_proxy_index`, which has
+no `expect`), for any request; hence the mode-selected allocator `allocChunks` never panics -/
+theorem C12_no_panic_allocator_ordered (s : Store) (proxyNum first : Nat) (choice : List (String × String)) :
+    (∀ w, generateFreeChunksOrdered s proxyNum first choice ≠ R.panic w) ∧
+    (proxyNum % 2 = 0 → 0 < proxyNum → ∀ w, allocChunks s proxyNum first choice ≠ R.panic w) :=
+  ⟨Ord.generateFreeChunksOrdered_noPanic s proxyNum first choice,
+   fun heven hpos => allocChunks_no_panic s proxyNum first choice hpos heven⟩
 
 /-- what the planner operations need beyond reachability (the gap of `C12_no_panic`):
 `MigPre c` = at most `SLOT_NUM` masters and every stable range list counts at most `SLOT_NUM`
@@ -124,7 +142,8 @@ theorem C12_no_panic_planner_partial (s : Store) (h : Reachable s) (op : Op) (hp
   | scaleOutNum n k => exact Outcome.ofR_ne_panic (autoScaleOutNodeNumber_noPanic s n k hpre)
   | migrate n => exact Outcome.ofR_ne_panic (migrateSlots_no_panic' s n hpre)
   | scaleDown n k => exact Outcome.ofR_ne_panic (migrateSlotsToScaleDown_noPanic_guarded s n k hpre)
-  | addProxy a n0 n1 ho => exact C12_no_panic s h _ rfl
+  | addProxy a n0 n1 ho io => exact C12_no_panic s h _ rfl
+  | setOrdered => exact C12_no_panic s h _ rfl
   | removeProxy a => exact C12_no_panic s h _ rfl
   | addCluster n k c => exact C12_no_panic s h _ rfl
   | removeCluster n => exact C12_no_panic s h _ rfl
@@ -158,7 +177,8 @@ theorem C12_no_panic_run (ops : List Op) (hb : ∀ k, Plan.PlanBound (run (ops.t
     | scaleOutNum n k => exact h2 n k
     | scaleDown n k => exact h3 n k
     | changeNum n k c => exact h4 n k c
-    | addProxy a n0 n1 ho => cases hop
+    | addProxy a n0 n1 ho io => cases hop
+    | setOrdered => cases hop
     | removeProxy a => cases hop
     | addCluster n k c => cases hop
     | removeCluster n => cases hop
@@ -186,7 +206,7 @@ theorem C12_no_panic_migrate_of_slotInv_partial (s : Store) (h : Reachable s) (n
 
 /-- operations whose refusal is *not* "state unchanged up to the epoch" (stated separately below) -/
 def Op.atomicRefusal : Op → Bool
-  | .failover _ _ | .changeNum _ _ _ | .addProxy _ _ _ _ => false
+  | .failover _ _ | .changeNum _ _ _ | .addProxy _ _ _ _ _ => false
   | _ => true
 
 /-- **C12_atomic_refusal.** If an operation answers with an error, the store is unchanged except
@@ -197,7 +217,8 @@ theorem C12_atomic_refusal (s : Store) (h : Reachable s) (op : Op) (e : Err) (ho
   have hx := rx_reachable s h
   apply SameButEpoch.eq
   cases op with
-  | addProxy a n0 n1 ho => cases hop
+  | addProxy a n0 n1 ho io => cases hop
+  | setOrdered => cases herr
   | removeProxy a => exact SameButEpoch.of_eq (removeProxy_refusal (Outcome.ofR_eq_err herr))
   | addCluster n k c => exact SameButEpoch.of_eq (addCluster_refusal (Outcome.ofR_eq_err herr))
   | removeCluster n => exact SameButEpoch.of_eq (removeCluster_refusal (Outcome.ofR_eq_err herr))
@@ -239,7 +260,9 @@ theorem C12_refusal_failover (s : Store) (h : Reachable s) (a c : String) (e : E
     obtain ⟨cl, hcl, hcn, _⟩ := hx.1.2.2.2.2 p hpm name hpc
     exact Store.findCluster_none.mp hnone cl hcl hcn
   · have hsk := afterTakeover_skelEq s name a hx.nodupNames
-    rcases h' with ⟨np, cl, _, _, h'⟩ | ⟨e', hg, h'⟩ | ⟨w, _, h'⟩ | ⟨w, _, h'⟩ | ⟨np, _, _, h'⟩
+    rcases h' with ⟨_, h'⟩ | ⟨_, ⟨np, cl, _, _, h'⟩ | ⟨e', hg, h'⟩ | ⟨w, _, h'⟩ | ⟨w, _, h'⟩ | ⟨np, _, _, h'⟩⟩
+    · -- ordered mode answers `Ok(None)`
+      rw [h'] at herr'; cases herr'
     · rw [h'] at herr'; cases herr'
     · rw [h'] at herr' ⊢
       cases herr'
@@ -265,23 +288,25 @@ theorem C12_refusal_changeNum (s : Store) (n : String) (k : Nat) (c : List (Stri
   · exact Or.inl h
   · exact Or.inr h.eq
 
-/-- refusal of `add_proxy`: an invalid address changes nothing; re-registering an existing address
+/-- refusal of `add_proxy`: an invalid address (or, in ordered mode, a missing index) changes
+nothing; re-registering an existing address
 answers `ALREADY_EXISTED` and (by design) clears that address's failed mark and failure reports —
 clusters and proxies are untouched -/
-theorem C12_refusal_addProxy (s : Store) (a n0 n1 : String) (ho : Option String) (e : Err)
-    (herr : (stepFull s (.addProxy a n0 n1 ho)).2 = .err e) :
-    (e = .invalidProxyAddress ∧ (stepFull s (.addProxy a n0 n1 ho)).1 = s) ∨
-    (e = .alreadyExisted ∧ (stepFull s (.addProxy a n0 n1 ho)).1.clusters = s.clusters ∧
-      (stepFull s (.addProxy a n0 n1 ho)).1.proxies = s.proxies ∧
-      (stepFull s (.addProxy a n0 n1 ho)).1.failed = s.failed.filter (· != a) ∧
-      (stepFull s (.addProxy a n0 n1 ho)).1.failures = s.failures.filter (·.1 != a)) :=
+theorem C12_refusal_addProxy (s : Store) (a n0 n1 : String) (ho : Option String) (io : Option Nat) (e : Err)
+    (herr : (stepFull s (.addProxy a n0 n1 ho io)).2 = .err e) :
+    ((e = .invalidProxyAddress ∨ e = .missingIndex) ∧ (stepFull s (.addProxy a n0 n1 ho io)).1 = s) ∨
+    (e = .alreadyExisted ∧ (stepFull s (.addProxy a n0 n1 ho io)).1.clusters = s.clusters ∧
+      (stepFull s (.addProxy a n0 n1 ho io)).1.proxies = s.proxies ∧
+      (stepFull s (.addProxy a n0 n1 ho io)).1.failed = s.failed.filter (· != a) ∧
+      (stepFull s (.addProxy a n0 n1 ho io)).1.failures = s.failures.filter (·.1 != a)) :=
   addProxy_refusal (Outcome.ofR_eq_err herr)
 
 /-! ## two hosts -/
 
 /-- **C12_two_hosts** (`add_cluster`): on success exactly one cluster is appended; it has
 `nodeNum / 4` chunks, each with its halves on different hosts, built from free healthy proxies -/
-theorem C12_two_hosts_addCluster (s s' : Store) (n : String) (k : Nat) (c : List (String × String)) (x : String)
+theorem C12_two_hosts_addCluster (s s' : Store) (ho : s.ordered = false) (n : String) (k : Nat)
+    (c : List (String × String)) (x : String)
     (h : stepFull s (.addCluster n k c) = (s', .ok x)) :
     ∃ cl, s'.clusters = s.clusters ++ [cl] ∧ cl.name = n ∧ cl.chunks.length * 4 = k ∧
       ∀ ch ∈ cl.chunks, ch.host0 ≠ ch.host1 ∧
@@ -292,10 +317,11 @@ theorem C12_two_hosts_addCluster (s s' : Store) (n : String) (k : Nat) (c : List
   · obtain ⟨u, hu, _⟩ := h2; exact absurd hu (hno u)
   · rw [he] at h1
     subst h1
-    exact ⟨_, rfl, rfl, by simp only [hlen]; omega, hnew.hosts⟩
+    exact ⟨_, rfl, rfl, by simp only [hlen]; omega, hnew.hosts ho⟩
 
 /-- **C12_two_hosts** (`auto_add_nodes`) -/
-theorem C12_two_hosts_addNodes (s s' : Store) (n : String) (k : Nat) (c : List (String × String)) (x : String)
+theorem C12_two_hosts_addNodes (s s' : Store) (ho : s.ordered = false) (n : String) (k : Nat)
+    (c : List (String × String)) (x : String)
     (h : stepFull s (.addNodes n k c) = (s', .ok x)) :
     ∃ cl new, s.findCluster n = some cl ∧
       s'.findCluster n = some { cl with chunks := cl.chunks ++ new, epoch := s.globalEpoch + 1 } ∧
@@ -308,10 +334,11 @@ theorem C12_two_hosts_addNodes (s s' : Store) (n : String) (k : Nat) (c : List (
   · obtain ⟨u, hu, _⟩ := h2; exact absurd hu (hno u)
   · rw [he] at h1
     subst h1
-    exact ⟨cl, new, hf, addNodesResult_findCluster hf, by omega, hnew.hosts⟩
+    exact ⟨cl, new, hf, addNodesResult_findCluster hf, by omega, hnew.hosts ho⟩
 
 /-- **C12_two_hosts** (`auto_scale_up_nodes`) -/
-theorem C12_two_hosts_scaleUp (s s' : Store) (n : String) (k : Nat) (c : List (String × String)) (x : String)
+theorem C12_two_hosts_scaleUp (s s' : Store) (ho : s.ordered = false) (n : String) (k : Nat)
+    (c : List (String × String)) (x : String)
     (h : stepFull s (.scaleUp n k c) = (s', .ok x)) :
     ∃ cl new, s.findCluster n = some cl ∧
       s'.findCluster n = some { cl with chunks := cl.chunks ++ new, epoch := s.globalEpoch + 1 } ∧
@@ -337,12 +364,13 @@ theorem C12_two_hosts_scaleUp (s s' : Store) (n : String) (k : Nat) (c : List (S
   · rw [he] at h1
     subst h1
     rw [hf] at hf'; cases hf'
-    exact ⟨cl, new, hf, addNodesResult_findCluster hf, by omega, hnew.hosts⟩
+    exact ⟨cl, new, hf, addNodesResult_findCluster hf, by omega, hnew.hosts ho⟩
 
 /-- **C12_two_hosts** (`auto_change_node_number`, scale-out branch = result `ok 1`, which
 `stepFull s (.changeNum n k c)` renders as `.ok " 1"`): the new chunks are appended to the cluster
 left by the deletion of its free chunks -/
-theorem C12_two_hosts_changeNum (s s' : Store) (n : String) (k : Nat) (c : List (String × String))
+theorem C12_two_hosts_changeNum (s s' : Store) (ho : s.ordered = false) (n : String) (k : Nat)
+    (c : List (String × String))
     (h : autoChangeNodeNumber s n k c = (s', R.ok 1)) :
     ∃ cl new, (autoDeleteFreeNodes s n).1.findCluster n = some cl ∧ new ≠ [] ∧
       s'.findCluster n =
@@ -352,7 +380,8 @@ theorem C12_two_hosts_changeNum (s s' : Store) (n : String) (k : Nat) (c : List 
           ch.proxy0 = p0.addr ∧ ch.proxy1 = p1.addr := by
   obtain ⟨cl, new, hf, hnew, hne, hs'⟩ := autoChangeNodeNumber_scaleUp h
   subst hs'
-  exact ⟨cl, new, hf, hne, addNodesResult_findCluster hf, hnew.hosts⟩
+  exact ⟨cl, new, hf, hne, addNodesResult_findCluster hf,
+    hnew.hosts (by rw [Ord.autoDeleteFreeNodes_ordered]; exact ho)⟩
 
 /-! ## host of the replacement -/
 
@@ -394,10 +423,10 @@ def C12_replacement_host_full : Prop :=
 
 /-- `corpus/broker/broker.f1b.ops`: p0 on host A and p1 on host B form a chunk, p2 on host A is free -/
 def f1bOps : List Op := [
-  .addProxy "p0:6000" "n0:7000" "n0:7001" (some "A"),
-  .addProxy "p1:6001" "n1:7002" "n1:7003" (some "B"),
+  .addProxy "p0:6000" "n0:7000" "n0:7001" (some "A") none,
+  .addProxy "p1:6001" "n1:7002" "n1:7003" (some "B") none,
   .addCluster "c0" 4 [("p0:6000", "p1:6001")],
-  .addProxy "p2:6002" "n2:7004" "n2:7005" (some "A")]
+  .addProxy "p2:6002" "n2:7004" "n2:7005" (some "A") none]
 
 def isNoResource : R (Option String) → Bool
   | .err .noAvailableResource => true
@@ -423,6 +452,83 @@ theorem C12_replacement_host_full_false : ¬ C12_replacement_host_full := by
     ⟨(run f1bOps).freeProxies[0]'(by decide +kernel), List.getElem_mem _, by decide +kernel⟩
   exact this.1 (isNoResource_eq (by decide +kernel))
 
+/-! ## ordered-proxy mode (`enable_ordered_proxy = true`, Kubernetes StatefulSets)
+
+The theorems above quantify over `Reachable`, which contains the histories of a broker started in
+ordered mode (`runOrdered ops = run (.setOrdered :: ops)`). What is specific to that mode: -/
+
+/-- both modes are reachable and the mode is fixed by how the history starts -/
+theorem C12_modes (ops : List Op) :
+    Reachable (runOrdered ops) ∧ (runOrdered ops).ordered = true ∧
+    ((∀ op ∈ ops, op ≠ .setOrdered) → (run ops).ordered = false) ∧
+    (∀ s op, s.ordered = true → (step s op).ordered = true) ∧
+    (∀ s op, op ≠ .setOrdered → (step s op).ordered = s.ordered) :=
+  ⟨Ord.reachable_runOrdered ops, Ord.runOrdered_ordered ops, Ord.run_normal ops,
+   fun s op h => Ord.step_ordered_mono s op h, fun s op h => Ord.step_ordered s op h⟩
+
+/-- **ordered mode: at most one cluster** (`OneClusterAlreadyExisted`) in every reachable state -/
+theorem C12_ordered_one_cluster (s : Store) (h : Reachable s) (ho : s.ordered = true) :
+    s.clusters.length ≤ 1 := Ord.oneCluster_reachable s h ho
+
+/-- **ordered `add_cluster`** (counterpart of `C12_two_hosts_addCluster`): on success there was no
+cluster, the new one is the only one, it has `nodeNum / 4` chunks, and its chunk halves read in
+chunk order are free healthy proxies carrying the indices `0, 1, …, nodeNum/2 - 1` — whatever
+their hosts. -/
+theorem C12_ordered_addCluster (s s' : Store) (ho : s.ordered = true) (n : String) (k : Nat)
+    (c : List (String × String)) (x : String) (h : stepFull s (.addCluster n k c) = (s', .ok x)) :
+    s.clusters = [] ∧ ∃ cl, s'.clusters = [cl] ∧ cl.name = n ∧ cl.chunks.length * 4 = k ∧
+      ∃ ps : List ProxyRes, (∀ p ∈ ps, p ∈ s.freeProxies) ∧ ps.map (·.addr) = cl.proxyAddrs ∧
+        ps.map (·.index) = List.range' 0 (k / 2) := by
+  have h1 : (addCluster s n k defaultConfig c).1 = s' := congrArg Prod.fst h
+  obtain ⟨u, hu, _⟩ := Outcome.ofR_eq_ok (congrArg Prod.snd h)
+  cases u
+  exact Ord.addCluster_ordered_spec ho (Prod.ext h1 hu)
+
+/-- **ordered `auto_add_nodes`** (counterpart of `C12_two_hosts_addNodes`): the new chunks continue
+the index sequence of the cluster: their halves in chunk order are free healthy proxies with the
+indices `2·|chunks|, 2·|chunks| + 1, …` -/
+theorem C12_ordered_addNodes (s s' : Store) (ho : s.ordered = true) (n : String) (k : Nat)
+    (c : List (String × String)) (x : String) (h : stepFull s (.addNodes n k c) = (s', .ok x)) :
+    ∃ cl new, s.findCluster n = some cl ∧
+      s'.findCluster n = some { cl with chunks := cl.chunks ++ new, epoch := s.globalEpoch + 1 } ∧
+      new.length * 4 = k ∧
+      ∃ ps : List ProxyRes, (∀ p ∈ ps, p ∈ s.freeProxies) ∧ ps.map (·.addr) = chunkAddrs new ∧
+        ps.map (·.index) = List.range' (cl.chunks.length * 2) (k / 2) := by
+  have h1 : (autoAddNodes s n k c).1 = s' := congrArg Prod.fst h
+  obtain ⟨u, hu, _⟩ := Outcome.ofR_eq_ok (congrArg Prod.snd h)
+  cases u
+  obtain ⟨cl, new, hf, hlen, hs', hps⟩ := Ord.autoAddNodes_ordered_spec ho (Prod.ext h1 hu)
+  subst hs'
+  exact ⟨cl, new, hf, addNodesResult_findCluster hf, hlen, hps⟩
+
+/-- **ordered failover** (counterpart of the replacement theorems): for a proxy that sits in a
+cluster, `replace_failed_proxy` is the takeover of its masters plus a second epoch bump; it answers
+`Ok(None)`, marks nothing failed, replaces nothing, leaves proxy records and failure reports alone,
+and keeps `ResInv`. -/
+theorem C12_ordered_failover (s : Store) (h : Reachable s) (ho : s.ordered = true) (a c : String)
+    (fp : ProxyRes) (name : String) (hfp : s.findProxy a = some fp) (hpc : fp.cluster = some name) :
+    stepFull s (.failover a c) = ((takeoverMaster s name a).1.bump, .ok " none") ∧
+    (stepFull s (.failover a c)).1.proxies = s.proxies ∧ (stepFull s (.failover a c)).1.failed = s.failed ∧
+    (stepFull s (.failover a c)).1.failures = s.failures ∧
+    (stepFull s (.failover a c)).1.globalEpoch = s.globalEpoch + 2 ∧
+    ResInv (stepFull s (.failover a c)).1 := by
+  obtain ⟨h1, h2, h3, h4, h5, h6⟩ := Ord.replaceFailedProxy_ordered_spec (rx_reachable s h) ho (c := c) hfp hpc
+  refine ⟨?_, h2, h3, h4, h5, (resInv_iff_rpt _).mpr h6.1⟩
+  show ((replaceFailedProxy s a c).1, Outcome.ofR _ (replaceFailedProxy s a c).2) = _
+  rw [h1]; rfl
+
+/-- ordered mode never installs a replacement, whatever the free pool looks like -/
+theorem C12_ordered_no_replacement (s : Store) (ho : s.ordered = true) (a c addr : String) :
+    (replaceFailedProxy s a c).2 ≠ R.ok (some addr) := by
+  intro h
+  rcases replaceFailedProxy_spec s a c with ⟨_, h'⟩ | ⟨p, _, _, h'⟩ | ⟨p, name, _, _, _, h'⟩ |
+      ⟨p, name, cl0, _, _, _, ⟨_, h'⟩ | ⟨hno, _⟩⟩
+  · rw [h'] at h; cases h
+  · rw [h'] at h; cases h
+  · rw [h'] at h; cases h
+  · rw [h'] at h; cases h
+  · rw [ho] at hno; cases hno
+
 /-! ## non-vacuity: the hypotheses are satisfiable on non-trivial states, the conclusions can fail
 outside reachable states, and the statements bite on concrete runs -/
 section NonVacuity
@@ -433,14 +539,14 @@ private def panicO : Outcome → Bool | .panic => true | _ => false
 
 /-- p0 on host A, p1 on host B -/
 private def twoProxies : List Op := [
-  .addProxy "p0:6000" "n0:7000" "n0:7001" (some "A"),
-  .addProxy "p1:6001" "n1:7002" "n1:7003" (some "B")]
+  .addProxy "p0:6000" "n0:7000" "n0:7001" (some "A") none,
+  .addProxy "p1:6001" "n1:7002" "n1:7003" (some "B") none]
 
 /-- chunk (p0@A, p1@B), free p2 on a third host C, free p3 on D -/
 private def thirdHost : List Op := twoProxies ++ [
   .addCluster "c0" 4 [("p0:6000", "p1:6001")],
-  .addProxy "p2:6002" "n2:7004" "n2:7005" (some "C"),
-  .addProxy "p3:6003" "n3:7006" "n3:7007" (some "D")]
+  .addProxy "p2:6002" "n2:7004" "n2:7005" (some "C") none,
+  .addProxy "p3:6003" "n3:7006" "n3:7007" (some "D") none]
 
 /-- a store violating the invariant: the cluster's chunk names proxies that are not registered -/
 private def badStore : Store :=
@@ -451,7 +557,7 @@ private def badStore : Store :=
                                       none none] }],
     proxies := [{ addr := "a:1", node0 := "a:2", node1 := "a:3", host := "A", index := 0, cluster := none },
                 { addr := "b:1", node0 := "b:2", node1 := "b:3", host := "B", index := 0, cluster := none }],
-    failed := [], failures := [] }
+    failed := [], failures := [], ordered := false }
 
 -- C12_accounting / C12_check_metadata / C12_membership_complement: a reachable state with a cluster, a
 -- tagged and a free proxy; the check is a real predicate (false on `badStore`)
@@ -492,7 +598,7 @@ example : ∀ k, Plan.PlanBound (run (scaledOut.take k)) := by
   · rw [List.take_of_length_le (by omega)]
     simpa using h scaledOut.length (Nat.le_refl _)
 private def unbalanced : Store :=
-  { globalEpoch := 1, proxies := [], failed := [], failures := [],
+  { globalEpoch := 1, proxies := [], failed := [], failures := [], ordered := false,
     clusters := [{ epoch := 1, name := "a", config := defaultConfig,
                    chunks := [mkChunk (px "x:1" "X") (px "y:1" "Y") (some [(0, 16383)]) (some []),
                               mkChunk (px "z:1" "Z") (px "w:1" "W") (some []) (some [])] }] }
@@ -512,7 +618,7 @@ example : errO (stepFull (run f1bOps) (.failover "p0:6000" "p2:6002")).2 = some 
 
 -- C12_refusal_changeNum / C12_refusal_addProxy
 example : errO (stepFull (run f1bOps) (.changeNum "c0" 8 [])).2 = some .noAvailableResource := by decide +kernel
-example : errO (stepFull (run f1bOps) (.addProxy "p2:6002" "n2:7004" "n2:7005" (some "A"))).2 =
+example : errO (stepFull (run f1bOps) (.addProxy "p2:6002" "n2:7004" "n2:7005" (some "A") none)).2 =
     some .alreadyExisted := by decide +kernel
 
 -- C12_two_hosts_*: successful allocations
@@ -524,6 +630,45 @@ example : (match (autoChangeNodeNumber (run thirdHost) "c0" 8 [("p2:6002", "p3:6
 -- C12_replacement_host_partial: with a third host the replacement is installed there
 example : (match (replaceFailedProxy (run thirdHost) "p0:6000" "p2:6002").2 with
     | .ok (some a) => a == "p2:6002" | _ => false) = true := by decide +kernel
+
+-- ordered-proxy mode: four proxies on ONE host with indices 0..3 (a fifth with a duplicate index 3),
+-- a 4-node cluster on indices 0,1, scale-out onto 2,3, failover without replacement
+private def orderedOps : List Op := [
+  .setOrdered,
+  .addProxy "p0:6000" "n0:7000" "n0:7001" (some "A") (some 0),
+  .addProxy "p1:6001" "n1:7002" "n1:7003" (some "A") (some 1),
+  .addProxy "p2:6002" "n2:7004" "n2:7005" (some "A") (some 2),
+  .addProxy "p3:6003" "n3:7006" "n3:7007" (some "A") (some 3),
+  .addProxy "p4:6004" "n4:7008" "n4:7009" (some "A") (some 3),
+  .addCluster "c0" 4 [("p0:6000", "p1:6001")]]
+
+example : (run orderedOps).ordered = true ∧ (run orderedOps).clusters.length = 1 := by decide +kernel
+example : ResInv (run orderedOps) ∧ checkMetadata (run orderedOps) = true :=
+  ⟨C12_accounting _ (reachable_run _), C12_check_metadata _ (reachable_run _)⟩
+example : (run orderedOps).clusters.length ≤ 1 :=
+  C12_ordered_one_cluster _ (reachable_run _) (by decide +kernel)
+-- the two-hosts clause does not hold in ordered mode: both halves of the chunk are on host A
+example : (run orderedOps).clusters.map (fun c => c.chunks.map fun ch => (ch.host0, ch.host1)) = [[("A", "A")]] := by
+  decide +kernel
+-- MissingIndex, OneClusterAlreadyExisted, ProxyResourceOutOfOrder
+example : errO (stepFull (run orderedOps) (.addProxy "p9:1" "x" "y" none none)).2 = some .missingIndex ∧
+    errO (stepFull (run orderedOps) (.addCluster "c1" 4 [])).2 = some .oneClusterAlreadyExisted ∧
+    errO (stepFull (run [.setOrdered, .addProxy "p1:6001" "x" "y" none (some 1),
+      .addProxy "p2:6002" "x" "y" none (some 2)]) (.addCluster "c0" 4 [])).2 = some .proxyResourceOutOfOrder := by
+  decide +kernel
+-- scale-out continues the index sequence; the tie on index 3 is the implementation's choice
+example : okO (stepFull (run orderedOps) (.addNodes "c0" 4 [("p2:6002", "p3:6003")])).2 = true ∧
+    okO (stepFull (run orderedOps) (.addNodes "c0" 4 [("p2:6002", "p4:6004")])).2 = true ∧
+    (match (stepFull (run orderedOps) (.addNodes "c0" 4 [("p3:6003", "p2:6002")])).2 with
+      | .badChoice _ => true | _ => false) = true := by decide +kernel
+-- failover in ordered mode: `Ok(None)`, two epoch bumps, no failed mark (`C12_ordered_failover`)
+example : okO (stepFull (run orderedOps) (.failover "p0:6000" "-")).2 = true ∧
+    (stepFull (run orderedOps) (.failover "p0:6000" "-")).1.globalEpoch = (run orderedOps).globalEpoch + 2 ∧
+    (stepFull (run orderedOps) (.failover "p0:6000" "-")).1.failed = [] ∧
+    (stepFull (run orderedOps) (.failover "p0:6000" "-")).1.clusters.map (fun c => c.chunks.map (·.role)) =
+      [[RolePos.second]] := by decide +kernel
+-- `setOrdered` later in a history is a no-op
+example : (step (run twoProxies) .setOrdered).ordered = false := by decide +kernel
 
 end NonVacuity
 
